@@ -22,7 +22,7 @@ CHECKS.update({
 })
 CHECKS.update({
  "C03": ("exploration", "reference-model monitor: sorted-map model vs real table reader for every index loader, compression pair, bloom sizing and buffer size",
-         "Generated tables (hostile keys incl. empty key and an index-dominating last key, nil/empty/marker-laden values) are written with both writers and opened with every index loader; Contains/Get on all keys and neighbours, full/starting-at/range scans on probe samples are compared with a sorted-map model; half of the evaluations pass all probe keys and bounds through reused caller buffers. Exploration over the seeded table list x loader matrix.",
+         "Generated tables (hostile keys incl. empty key and an index-dominating last key, nil/empty/marker-laden values) are written with both writers and opened with every index loader (every other table through loader values that already loaded earlier tables); Contains/Get on all keys and neighbours, full/starting-at/range scans on probe samples are compared with a sorted-map model; half of the evaluations pass all probe keys and bounds through reused caller buffers. Exploration over the seeded table list x loader matrix.",
          "map loader exercised only inside its documented fixed-width domain", "§3 C03", "E1"),
  "C08": ("exploration", "reference-model monitor: latest-wins union model vs stacked reader and real merger over stacks of real tables",
          "Stacks of 1..6 real tables with overlapping keys, tombstones and the empty key are built; stacked Get/Contains/scans, pairs of scans alive at the same time, both compacting reductions (merged into a real table and read back) and the plain merge are compared with the union model; half of the skip-list-loader stacks are ordered by a descending comparator. Exploration over seeded stacks.",
@@ -36,12 +36,12 @@ CHECKS.update({
          "Seeded WriteNext programs with unsorted/repeated/empty keys (one in three under a difference-valued comparator, half through one reused key buffer) and injected data- or index-append failures (incl. immediate retries) are run against the real writer; each call's result class, the table content after Close and every metadata field (vs real file sizes) are compared with the model.",
          "injected failures are clean failures (wrapped writer untouched), the shape of the repository's own failing-writer test double", "§3 C15", "E1+E6a"),
  "C20": ("exploration", "differential monitor: Kaitai-generated reader vs native reader vs independent layout parser on files written by the real writer; enum names read from the published .ksy",
-         "Files with nil/empty/large records under all four compression types (one in four written by a program that rolls records back, with rollback targets from Write's result or from Size(), and refused seeks in between) are decoded by the repository's Kaitai-generated reader and compared record by record (count, nil flag, stored bytes) with the native reader and an independent parser; compression codes are checked against the enum in recordio_v4.ksy.",
+         "Files with nil/empty/large records under all four compression types (one in four written by a program that rolls records back, every 6th case three files written at the same time from three goroutines, with rollback targets from Write's result or from Size(), and refused seeks in between) are decoded by the repository's Kaitai-generated reader and compared record by record (count, nil flag, stored bytes) with the native reader and an independent parser; compression codes are checked against the enum in recordio_v4.ksy.",
          "the generated Go reader stands for the schema (no kaitai-struct-compiler offline)", "§3 C20", "E1"),
 })
 CHECKS.update({
  "C11": ("fault_enumeration", "fault injection: exhaustive single faults at every input-iterator and output-writer position of the real merger; hook-level and RLIMIT_FSIZE (kernel EFBIG) faults inside SimpleDB flush/compaction in sub-processes; oracle = fault-free output / reference map",
-         "(a) every Next position of every input (3 failure variants) and every WriteNext position of generated merges is failed once against the real Merge/MergeCompact/MergeCompactIterator; (b) flushes and compaction cycles of a real SimpleDB run in sub-processes with a failing k-th data/index append, a failing input record a file-size limit that makes write(2) fail at a chosen byte, or one file of the new table on a full device (symlink to /dev/full: ENOSPC); success may only be reported for complete output, after a reported compaction error the same and a fresh process must still read the model.",
+         "(a) every Next position of every input (3 failure variants) and every WriteNext position of generated merges is failed once against the real Merge/MergeCompact/MergeCompactIterator; (b) flushes and compaction cycles of a real SimpleDB (driven, and by the real background compactor while Close waits for it) run in sub-processes with a failing k-th data/index append, a failing input record a file-size limit that makes write(2) fail at a chosen byte, or one file of the new table on a full device (symlink to /dev/full: ENOSPC); success may only be reported for complete output, after a reported compaction error the same and a fresh process must still read the model.",
          "hook failures are clean failures; kernel faults only through RLIMIT_FSIZE (EFBIG); a failed flush ends in log.Panicf, what it leaves on disk is judged by C02", "§3 C11", "E6"),
 })
 CHECKS.update({
@@ -54,7 +54,7 @@ CHECKS.update({
          "Lineages of real tables with controlled sizes and tombstone ratios (tombstones over older, larger values; size- and ratio-selected tables around an unselected one) are built through forced rotations; every compaction cycle is bracketed by a read of all keys (identical before/after and equal to the map), its selection must be a gap-free run in age order replaced in the slot of its oldest member; settings are redrawn at reopens; one lineage in eight sits on top of one of the repository's legacy-format fixture tables (no metadata file, reports 0 records / 0 bytes).",
          "selection policy itself is not judged, only gap-freeness and placement", "§3 C06", "E1"),
  "C17": ("exploration", "differential monitor (string-API database vs byte-API database) + reference map that ignores rejected calls, observed directly / after rotation+flush / after clean reopen; sessions with a WAL that cannot append (direct I/O without async) as a source of I/O errors",
-         "The same seeded program with nil/empty/non-UTF-8/64 KiB arguments runs against two databases through the two API flavours; decisions and results must agree, rejected calls must leave no trace at any observation point, and reads must not change across flush or restart. Crash-image observation is provided by the C02 engine (C17 crash cases).",
+         "The same seeded program with nil/empty/non-UTF-8/64 KiB arguments runs against two databases through the two API flavours; decisions and results must agree, rejected calls (incl. calls on a handle before its Open) must leave no trace at any observation point, and reads must not change across flush or restart. Crash-image observation is provided by the C02 engine (C17 crash cases).",
          "nil byte slices correspond to empty strings; empty-key Delete only required to be invisible", "§3 C17", "E1"),
 })
 CHECKS.update({
@@ -62,15 +62,15 @@ CHECKS.update({
          "Histories of 3..6 clients on 2..5 keys with unique written values are recorded with one monotonic clock while flushes and compactions overlap the calls (tiny memstore, 50us..1ms ticker or a chaos goroutine, delays between critical sections and one inside the reflection's critical section) and checked with porcupine; a checker timeout is inconclusive. Every 10th history has a rotation that fails (a directory planted where a coming WAL file would be created): mutations that returned an error stay in the history as open may-have-taken-effect calls (set-valued register state), Gets must keep succeeding and the history must stay linearizable. Exploration over observed interleavings.",
          "only interleavings that actually occurred are judged; the evidence counts flushes/compactions inside the client window and overlapping call pairs", "§3 C05", "E3"),
  "C18": ("exploration", "Go race detector (-race build of the child, halt_on_error=0, reports parsed and de-duplicated by innermost go-sstables frames) + sequential-answer oracle over three concurrent workloads",
-         "One SimpleDB handle (8 goroutines, own+shared keys, rotations and compactions running), one SSTableReader (8..16 goroutines of Get/Contains/range scans; one table in three without a bloom filter file) and one MMapReader (ReadNextAt/SeekNext) are exercised in the race-detector build across seeds and GOMAXPROCS {2,4,16}; any report touching go-sstables or the harness, any abnormal exit, any result differing from the sequential answer and any state-based deadlock (a client blocked inside the library while no library goroutine can run, read off the watchdog's goroutine dump) is a violation.",
+         "One SimpleDB handle (8 goroutines, own, shared and each other's keys with self-describing values, rotations and compactions running or everything in one memstore), one SSTableReader (8..16 goroutines of Get/Contains/range scans; one table in three without a bloom filter file) and one MMapReader (ReadNextAt/SeekNext) are exercised in the race-detector build across seeds and GOMAXPROCS {2,4,16}; any report touching go-sstables or the harness, any abnormal exit, any result differing from the sequential answer and any state-based deadlock (a client blocked inside the library while no library goroutine can run, read off the watchdog's goroutine dump) is a violation.",
          "the race detector reports only races that happened in the observed executions; Scan() is outside the documented concurrent surface", "§3 C18", "E4"),
  "C19": ("exploration", "resource census monitor: /proc/self/fd + /proc/self/maps filtered by directory and goroutine dump filtered by go-sstables frames, at quiescent points and after Close",
-         "Driven SimpleDB sessions with >=40 cycles are censused at every quiescent point (descriptors <= 4, mappings <= live tables + 3) and after Close (nothing left, no library goroutine, re-Open and RemoveAll work); live sessions are closed while a compaction is held in flight at a hook point; table and RecordIO readers/writers (incl. failed Opens, abandoned scans, legacy-format tables and stacked readers one member of which was closed before) must return to the baseline after Close.",
+         "Driven SimpleDB sessions with >=40 cycles are censused at every quiescent point (descriptors <= 4, mappings <= live tables + 3) and after Close (nothing left, no library goroutine, re-Open and RemoveAll work); live sessions are closed while a compaction is held in flight at a hook point; table and RecordIO readers/writers (incl. failed Opens, abandoned scans, legacy-format tables, writers rewound before Close and stacked readers one member of which was closed before) must return to the baseline after Close.",
          "Linux /proc is the ground truth; goroutine attribution by stack frames", "§3 C19", "E5"),
 })
 CHECKS.update({
  "C02": ("fault_enumeration", "offline checker over recorded system-call logs: strace -f trace of real sessions -> in-memory file-system replay -> crash image at every mutating call (+ unlink-order permutations) -> fresh-process Open + read-all compared with the acknowledged-operations model",
-         "Whole sessions (open, operations incl. runs of consecutive deletes, memstore limits from 16 bytes to 64 MiB, values up to 6 MiB, size-triggered and forced rotations, background flushes and compactions, close, reopen) run under strace with INV/ACK markers in the same log; every boundary between two file-system-mutating system calls of any thread is turned into a directory image (fidelity self-check: final replayed image == real directory) and every distinct image is recovered by a fresh process; Open must succeed and each key must read model(acked) or model(acked + in-flight op). Enumerates every crash point of the traced executions; sessions/schedules are sampled.",
+         "Whole sessions (open, operations incl. runs of consecutive deletes, memstore limits from 16 bytes to 64 MiB, values up to 6 MiB, size-triggered and forced rotations, background flushes and compactions, close, reopen) run under strace with INV/ACK markers in the same log; every boundary between two file-system-mutating system calls of any thread is turned into a directory image (fidelity self-check: final replayed image == real directory) and every distinct image is recovered by a fresh process (every 4th additionally continues with a put and a delete and is then either closed and re-opened or killed a second time and recovered again); every second run ends with a session driven by three concurrent clients on disjoint keys; Open must succeed and each key must read model(acked) or model(acked + in-flight op). Enumerates every crash point of the traced executions; sessions/schedules are sampled.",
          "kill -9 model (completed system calls retained, single write not torn); schedules are those that occurred under strace; other listing orders emulated for unlink runs only", "§2.2, §3 C02", "E2"),
 })
 CHECKS.update({
